@@ -119,6 +119,14 @@ def build(prog, x0=None, via_ctor=False, initialize=True, ns=None, rules=(), mod
                     pass
             if len(rt) == 4:
                 m.create_reaction(rt[0], rt[1], rt[2], rt[3])
+            elif n_rt % 2 == 1:
+                # the keyword form of the API: an empty delayed side is simply not given (its default is None)
+                kw = {"delay_type": rt[4], "delay_param_dict": rt[7]}
+                if rt[5]:
+                    kw["delay_reactants"] = rt[5]
+                if rt[6]:
+                    kw["delay_products"] = rt[6]
+                m.create_reaction(rt[0], rt[1], rt[2], rt[3], **kw)
             else:
                 m.create_reaction(rt[0], rt[1], rt[2], rt[3], rt[4], rt[5], rt[6], rt[7])
         for k, v in params.items():
